@@ -206,19 +206,21 @@ Proof.
 Qed.
 
 Theorem lvl1_spec (gl : list mitem) : Forall (wfn n) gl ->
-  exists out, opt1 mat mmul mid2 gl = Ok out /\ length out <= length gl /\ Forall (wfn n) out /\ equiv n out gl /\ noadj out.
+  exists out, opt1 mat mmul mid2 gl = Ok out /\ length out <= length gl /\ Forall (wfn n) out /\ equiv n out gl /\ noadj out /\ (gl <> [] -> out <> []).
 Proof.
   intros H. destruct (run_loop_spec 1 mid2 false (or_introl (conj eq_refl eq_refl)) (length gl) gl (le_n _) H)
-    as (out & A & B & C & D & _ & E).
+    as (out & A & B & C & D & F & E).
   exists out. repeat split; auto.
+  intros Hg ->. destruct gl; [congruence | exact F].
 Qed.
 
 Theorem lvl3_spec (gl : list mitem) : Forall (wfn n) gl ->
-  exists out, opt3 mat mmul mid4 gl = Ok out /\ length out <= length gl /\ Forall (wfn n) out /\ equiv n out gl.
+  exists out, opt3 mat mmul mid4 gl = Ok out /\ length out <= length gl /\ Forall (wfn n) out /\ equiv n out gl /\ (gl <> [] -> out <> []).
 Proof.
   intros H. destruct (run_loop_spec 2 mid4 true (or_intror (conj eq_refl eq_refl)) (length gl) gl (le_n _) H)
-    as (out & A & B & C & D & _).
+    as (out & A & B & C & D & F & _).
   exists out. repeat split; auto.
+  intros Hg ->. destruct gl; [congruence | exact F].
 Qed.
 
 End L13.
